@@ -63,6 +63,8 @@ def val_json(v: Any) -> Any:
         return {"k": "time", "v": v.isoformat()}
     if isinstance(v, (list, tuple)):
         return {"k": "list", "v": [val_json(i) for i in v]}
+    if isinstance(v, (bytes, bytearray)):
+        return {"k": "bytes", "v": bytes(v).hex()}
     raise TypeError(type(v))
 
 
@@ -84,6 +86,8 @@ def val_unjson(j: Any) -> Any:
         return dt.time.fromisoformat(v)
     if k == "list":
         return [val_unjson(i) for i in v]
+    if k == "bytes":
+        return bytes.fromhex(v)
     raise TypeError(k)
 
 
